@@ -38,8 +38,9 @@ theorem out_step (s : St S) (o : Op S) (c : Tid) (m : Media) (f : Form) (src : S
   | setBridge t b => simp [step] at hev
   | clearBridge t => simp [step] at hev
   | setFlags t l r ob => simp [step] at hev
+  | setAbsSendTime t on => simp [step] at hev
   | sendRtp t => obtain ⟨rfl, h, _⟩ := sendRtpGate_ok t (s t) c m f src hev; exact h hreq
-  | sendRaw t p => obtain ⟨rfl, h, _⟩ := sendRawGate_ok t (s t) p c m f src hev; exact h hreq
+  | sendRaw t p e => obtain ⟨rfl, h, _⟩ := sendRawGate_ok t (s t) p e c m f src hev; exact h hreq
   | sendRtcp t => obtain ⟨rfl, h, _⟩ := sendRtcpGate_ok t (s t) c m f src hev; exact h hreq
   | syncBye t => obtain ⟨rfl, h, _⟩ := syncByeGate_ok t (s t) c m f src hev; exact h hreq
   | close t =>
@@ -75,10 +76,11 @@ theorem in_step (s : St S) (o : Op S) (t : Tid) (sink : Sink) (p : Prov)
   | setBridge t b => simp [step] at hev
   | clearBridge t => simp [step] at hev
   | setFlags t l r ob => simp [step] at hev
+  | setAbsSendTime t on => simp [step] at hev
   | sendRtp t' =>
     simp only [step, own, sendRtpGate] at hev
     split at hev <;> (try split at hev) <;> simp at hev
-  | sendRaw t' p' =>
+  | sendRaw t' p' e' =>
     simp only [step, own, sendRawGate] at hev
     split at hev <;> (try split at hev) <;> (try split at hev) <;> simp at hev
   | sendRtcp t' =>
@@ -126,10 +128,11 @@ theorem relay_step (s : St S) (o : Op S) (t c : Tid) (m : Media) (f : Form) (p :
   | setBridge t b => simp [step] at hev
   | clearBridge t => simp [step] at hev
   | setFlags t l r ob => simp [step] at hev
+  | setAbsSendTime t on => simp [step] at hev
   | sendRtp t' =>
     simp only [step, own, sendRtpGate] at hev
     split at hev <;> (try split at hev) <;> simp at hev
-  | sendRaw t' p' =>
+  | sendRaw t' p' e' =>
     simp only [step, own, sendRawGate] at hev
     split at hev <;> (try split at hev) <;> (try split at hev) <;> simp at hev
   | sendRtcp t' =>
@@ -291,14 +294,14 @@ example :
 
 /-- before keys: every send path is refused and inbound traffic of every kind is dropped -/
 example :
-    trace demo [.sendRtp 0, .sendRaw 0 true, .sendRtcp 0, .syncBye 0, .close 0,
+    trace demo [.sendRtp 0, .sendRaw 0 true true, .sendRtcp 0, .syncBye 0, .close 0,
                 .recvRtp 0 .clear false, .recvRtp 0 (.prot 7 true true) false, .recvRtcp 0 .clear] =
       [.ret false, .ret false, .ret false] := by decide
 
 /-- unusable key material (key id 5): every protect / unprotect fails — nothing leaves, nothing is
 accepted, and nothing falls back to clear -/
 example :
-    trace demo [.installKeys 0 5, .sendRtp 0, .sendRaw 0 true, .sendRtcp 0, .syncBye 0,
+    trace demo [.installKeys 0 5, .sendRtp 0, .sendRaw 0 true true, .sendRtcp 0, .syncBye 0,
                 .recvRtp 0 (.prot 5 true true) false, .setBridge 2 ⟨0, none⟩, .recvRtp 2 .clear false] =
       [.ret false, .ret false, .ret false, .deliver 2 .ingressObs .unauth, .deliver 2 (.relayObs 0) .unauth] := by
   decide
